@@ -28,6 +28,9 @@ pub struct Scn {
     /// release several connections concurrently with failpoints armed before the stepwise part
     pub stress: bool,
     pub failpoints: bool,
+    /// pause and resume while every worker is saturated and clients are queued
+    pub pause_resume: bool,
+    pub release_while_paused: bool,
 }
 
 impl Scn {
@@ -49,14 +52,16 @@ impl Scn {
             queued: 1 + r.usize(3),
             stress: r.chance(1, 3),
             failpoints: r.chance(1, 2),
+            pause_resume: r.chance(1, 2),
+            release_while_paused: r.chance(1, 2),
         }
     }
     pub fn to_json(&self) -> Value {
         json!({"case_seed": self.seed, "workers": self.workers, "limit": self.limit, "listeners": format!("{:?}", self.listeners),
-               "rt": format!("{:?}", self.rt), "queued": self.queued, "stress": self.stress, "failpoints": self.failpoints})
+               "rt": format!("{:?}", self.rt), "queued": self.queued, "stress": self.stress, "failpoints": self.failpoints, "pause_resume": self.pause_resume, "release_while_paused": self.release_while_paused})
     }
     pub fn shape(&self) -> String {
-        format!("w{} l{} {:?} {:?} q{} s{} f{}", self.workers, self.limit, self.listeners, self.rt, self.queued, self.stress as u8, self.failpoints as u8)
+        format!("w{} l{} {:?} {:?} q{} s{} f{} pr{}", self.workers, self.limit, self.listeners, self.rt, self.queued, self.stress as u8, self.failpoints as u8, self.pause_resume as u8 + 2 * (self.release_while_paused as u8))
     }
 }
 
@@ -76,6 +81,8 @@ pub struct Seen {
     pub max_in_flight_seen: u64,
     pub boundary_concurrency_checks: u64,
     pub stress_phases: u64,
+    pub pause_resume_while_saturated: u64,
+    pub releases_while_paused: u64,
 }
 
 pub enum Outcome {
@@ -393,6 +400,44 @@ pub fn run_scenario(scn: &Scn, seen: &mut Seen) -> Outcome {
             ));
         }
 
+        // ---- optional: pause and resume while everybody is saturated; still nothing may be dispatched
+        let mut released_while_paused = 0usize;
+        if scn.pause_resume {
+            let before = monitor::dispatch_sequence(&verif::log_since(0)).len();
+            let _ = engine::block_on_timeout(w.run.handle.pause(), engine::WATCHDOG);
+            match w.run.accept_barrier(true) {
+                Ok(_) => {}
+                Err(Waited::Stuck) => return Err(Outcome::Violated(vec![fail("C05:accept-thread-stuck", "accept thread did not process pause".to_string())])),
+                Err(_) => return Err(Outcome::Inconclusive("pause barrier".into())),
+            }
+            // sometimes a connection finishes while the server is paused: the capacity it frees must be used after resume
+            if scn.release_while_paused && !w.clients.is_empty() && first_extra > 0 {
+                let v = rng.usize(first_extra);
+                let c = std::mem::replace(&mut w.clients[v], dummy_client());
+                if c.cid != 0 {
+                    close_and_wait(c)?;
+                    released_while_paused = 1;
+                    seen.releases_while_paused += 1;
+                    match w.run.guard_barrier() {
+                        Waited::Ok => {}
+                        _ => return Err(Outcome::Inconclusive("guard barrier while paused".into())),
+                    }
+                    let _ = w.run.accept_barrier(true);
+                }
+            }
+            let _ = engine::block_on_timeout(w.run.handle.resume(), engine::WATCHDOG);
+            seen.pause_resume_while_saturated += 1;
+            let snap = barrier(&w)?;
+            quiescent_check(&w, &snap, "after pause+resume while saturated", seen, &mut fails);
+            let after = monitor::dispatch_sequence(&verif::log_since(0)).len();
+            if after != before + released_while_paused {
+                fails.push(fail(
+                    "C02:dispatch-while-all-saturated",
+                    format!("{} connection(s) were dispatched after a pause+resume although every worker was at its limit {} ({released_while_paused} released meanwhile)", after - before, scn.limit),
+                ));
+            }
+        }
+
         // ---- optional stress: release several held connections from concurrent threads, then settle
         let mut held: Vec<usize> = (0..first_extra).collect();
         rng.shuffle(&mut held);
@@ -425,7 +470,7 @@ pub fn run_scenario(scn: &Scn, seen: &mut Seen) -> Outcome {
         }
 
         // ---- phase D: release held connections one at a time; each release must let one queued client in
-        let mut queued_left = scn.queued as i64 - if scn.stress { count_served(&mut w, first_extra) as i64 } else { 0 };
+        let mut queued_left = scn.queued as i64 - if scn.stress || released_while_paused > 0 { count_served(&mut w, first_extra) as i64 } else { 0 };
         for v in held {
             if !fails.is_empty() {
                 break;
